@@ -1,7 +1,7 @@
 // Bounded round-trip exploration for C08 (whole modules): every sample program of the repository (std/*.sam,
 // tests/*.sam) and a hand-written module with the constructs the samples hardly use is formatted at several
 // line widths and parsed again; the formatted text must parse without errors to the same syntax tree
-// (positions and comments dropped, import lines compared as a set of (module, member) pairs).
+// (positions and comments dropped, import lines compared as a multiset of (module, member) pairs).
 // The two recorded findings (`::` next to another operator; `a op (b op c)`) do not occur in these texts.
 use super::*;
 use samlang_ast::source::{annotation, expr, pattern, Literal, Module, Toplevel, TypeDefinition};
@@ -174,8 +174,7 @@ fn module_tree(h: &Heap, m: &Module<()>) -> Vec<String> {
       imports.push(format!("{}::{}", i.imported_module.pretty_print(h), member.name.as_str(h)));
     }
   }
-  imports.sort();
-  imports.dedup();
+  imports.sort(); // merged and sorted, but an imported name that occurs twice still occurs twice
   out.push(format!("(imports {})", imports.join(" ")));
   for t in &m.toplevels {
     match t {
